@@ -28,7 +28,7 @@ ASSUMPTIONS = ['bit-equality is demanded only between executions of the same cod
                'paired-world numerics are compared by model name within 1e-9 (relative, floor 1e-9) and only for well-conditioned regressions '
                '(normal-matrix determinant > 1e-3 of the product of its diagonal); rankings may differ inside exact ties']
 PROBES = ['same_source_object_twice', 'both_users_same_source', 'bad_call_between', 'memmap_fitter', 'apdep', 'p1_filters_permuted',
-          'p2_models_permuted', 'p3_flux_scaled', 'ill_conditioned_skipped', 'earlier_results_rechecked', 'source_edited_in_place', 'refit_after_in_place_edit', 'mixed_named_and_wavelength_filters', 'bystander_fitter_alive']
+          'p2_models_permuted', 'p3_flux_scaled', 'ill_conditioned_skipped', 'earlier_results_rechecked', 'source_edited_in_place', 'refit_after_in_place_edit', 'mixed_named_and_wavelength_filters', 'bystander_fitter_alive', 'same_filter_twice_other_aperture']
 
 
 def budgets(tier):
@@ -66,6 +66,8 @@ def generate(rng, tier, idx):
             'mono_seed': rng.randrange(1 << 30), 'mono_unit': rng.choice(['micron', 'micron', 'Angstrom', 'mm']),
             # other Fitter objects alive in the same process while the shared one is used (another user's fitter on another
             # package, or on the same package with the filters in another order), created before or after the shared one
+            # multi-aperture photometry: the same filter listed twice with different apertures (aperture-dependent packages)
+            'dup_filter': ({'j': rng.randrange(nf), 'factor': rng.choice([1.5, 2.0, 4.0])} if w['apdep'] and rng.random() < 0.35 else None),
             'bystanders': [{'kind': rng.choice(['other_pkg', 'perm_filters']), 'when': rng.choice(['before', 'after']),
                             'remove_resolved': rng.random() < 0.5, 'seed': rng.randrange(1 << 30)} for _ in range(rng.choice([0, 0, 1, 2]))]}
 
@@ -124,10 +126,10 @@ def _close(a, b):
     return abs(a - b) <= 1e-9 * max(abs(a), abs(b)) + 1e-9
 
 
-def _well_conditioned(W, s, apdep):
+def _well_conditioned(W, s, apdep, centers=None):
     valid = np.array(s['valid'])
     fl, er = np.array(s['flux'], float), np.array(s['error'], float)
-    kj = ref_k(W.ext_wav, W.ext_chi, [f['center'] for f in W.fspec])
+    kj = ref_k(W.ext_wav, W.ext_chi, centers if centers is not None else [f['center'] for f in W.fspec])
     with np.errstate(all='ignore'):
         w = np.where(valid == 1, (np.log(10) * fl / er) ** 2, np.where(valid == 4, 1.0 / er ** 2, 0.0))
     if apdep:
@@ -154,6 +156,19 @@ def _execute(sc, sim, out):
         names = [((float(W.wav[picks[j % len(picks)]]) * u.micron).to(u.Unit(sc.get('mono_unit', 'micron'))) if m else nm)
                  for j, (nm, m) in enumerate(zip(names, sc['mono']))]
         out.probe('mixed_named_and_wavelength_filters')
+    centers = [f['center'] for f in W.fspec]
+    for j_, nm_ in enumerate(names):
+        if not isinstance(nm_, str):
+            centers[j_] = float(nm_.to(pipe.u.micron).value)
+    if sc.get('dup_filter') and W.apdep and all(isinstance(x, str) for x in names):
+        dj = sc['dup_filter']['j'] % len(names)
+        names = list(names) + [names[dj]]
+        ap = np.concatenate([ap.value, [ap.value[dj] * sc['dup_filter']['factor']]]) * ap.unit
+        centers = centers + [centers[dj]]
+        sc['pool'] = [dict(s0, valid=list(s0['valid']) + [1], flux=list(s0['flux']) + [float('%.6e' % (1.3 * abs(s0['flux'][dj]) + 1.0))],
+                           error=list(s0['error']) + [float('%.6e' % (0.1 * (1.3 * abs(s0['flux'][dj]) + 1.0)))]) for s0 in sc['pool']]
+        out.probe('same_filter_twice_other_aperture')
+    n_bands = len(names)
     kw = pipe.fitter_kwargs(W, sc)
 
     def new_fitter(dd=d, nm=names, aa=ap):
@@ -239,7 +254,7 @@ def _execute(sc, sim, out):
     shape = []
     for k, st in enumerate(sc['steps']):
         if st['op'] == 'bad':
-            nf = len(W.fspec)
+            nf = n_bands
             n = nf - 1 if (st['kind'] == 'short' and nf > 1) else nf + 1
             bad = make_source({'name': 'bad', 'x': 0.0, 'y': 0.0, 'valid': [1] * n, 'flux': [1.0] * n, 'error': [0.1] * n})
             rb = pipe.call(shared.fit, bad)
@@ -309,8 +324,8 @@ def _execute(sc, sim, out):
                 return
             ref[i] = rfi
         # ---- P1: filters permuted, photometry permuted alike
-        if sc['p1_seed'] is not None and len(W.fspec) > 1:
-            perm = list(range(len(W.fspec)))
+        if sc['p1_seed'] is not None and n_bands > 1:
+            perm = list(range(n_bands))
             random.Random(sc['p1_seed']).shuffle(perm)
             nm2 = [names[j] for j in perm]
             ap2 = ap[perm]
@@ -320,7 +335,7 @@ def _execute(sc, sim, out):
             else:
                 for i in fit_idx:
                     s = cur[i]
-                    if not _well_conditioned(W, s, W.apdep):
+                    if not _well_conditioned(W, s, W.apdep, centers):
                         out.probe('ill_conditioned_skipped')
                         continue
                     s2 = dict(s, valid=[s['valid'][j] for j in perm], flux=[s['flux'][j] for j in perm], error=[s['error'][j] for j in perm])
@@ -363,7 +378,7 @@ def _execute(sc, sim, out):
             rf = new_fitter()
             for i in fit_idx:
                 s = cur[i]
-                if any(v not in (0, 1, 9) for v in s['valid']) or not _well_conditioned(W, s, False):
+                if any(v not in (0, 1, 9) for v in s['valid']) or not _well_conditioned(W, s, False, centers):
                     out.probe('ill_conditioned_skipped')
                     continue
                 s2 = dict(s, flux=[f * c for f in s['flux']], error=[e * c for e in s['error']])
@@ -408,6 +423,8 @@ def lowerings(sc, viol=None):
     for key in ('p1_seed', 'p2_seed', 'p3_c'):
         if sc[key] is not None:
             yield dict(sc, **{key: None})
+    if sc.get('dup_filter'):
+        yield dict(sc, dup_filter=None)
     if sc.get('bystanders'):
         yield dict(sc, bystanders=[])
     if sc.get('mono'):
